@@ -561,6 +561,12 @@ public:
       pre = strengthen(head, pre);
     }
 
+    // If the head of the cycle is the entry of the analysis then the
+    // initial value is not the post of any predecessor of the head. It
+    // must be joined explicitly with the back edges, otherwise it is lost.
+    const bool head_is_entry = entry_in_this_cycle && (head == m_entry);
+    const AbstractValue entry_pre = (head_is_entry ? pre : make_bottom());
+
     for (unsigned int iteration = 1;; ++iteration) {
       // keep track of how many times the cycle is visited by the fixpoint
       cycle.increment_fixpo_visits();
@@ -576,6 +582,9 @@ public:
       AbstractValue new_pre = std::move(make_bottom());
       for (basic_block_label_t prev : prev_nodes) {
         new_pre |= m_iterator->get_post(prev);
+      }
+      if (head_is_entry) {
+        new_pre |= entry_pre;
       }
       crab::CrabStats::stop("Fixpo.join_predecessors");
       crab::CrabStats::resume("Fixpo.check_fixpoint");
@@ -610,6 +619,9 @@ public:
       AbstractValue new_pre = std::move(make_bottom());
       for (basic_block_label_t prev : prev_nodes) {
         new_pre |= m_iterator->get_post(prev);
+      }
+      if (head_is_entry) {
+        new_pre |= entry_pre;
       }
       crab::CrabStats::stop("Fixpo.join_predecessors");
       crab::CrabStats::resume("Fixpo.check_fixpoint");
